@@ -15,6 +15,7 @@ PARTS = HEAD + consts('LEAD_SIZE', 'INDEX_HEADER_SIZE', 'INDEX_ENTRY_SIZE', 'HEA
     Prelude('hdrspec.rs'),
     Prelude('read.rs'),
     Prelude('stdspecs.rs'),
+    Prelude('alloc.rs'),
     Prelude('decode.rs'),
     Prelude('leaves.rs'),
     Decl(LEAD, 'struct', 'Lead'),
@@ -114,7 +115,7 @@ impl<T: Tag> Header<T> {
     Fn(HDR, 'parse', impl='impl<T> Header<T> where T: Tag,',
        subs=[READ1, ret(),
              ('input.by_ref().take(size_rest).read_to_end(&mut buf)?;', 'input.take_read_to_end(size_rest, &mut buf)?;', None, 'R16-Take::read_to_end'),
-             ] + IOERR_RULES + [
+             ] + IOERR_RULES + ALLOC_RULES + [
              ('&buf[..]', 'buf.as_slice()', None, 'R17-full-range-slice'),
              ('Vec::new()', 'Vec::<u8>::new()', None, 'R9-type-annotation')],
        spec='''    ensures
@@ -230,7 +231,7 @@ impl<T: Tag> Header<T> {
     Fn(HDR, 'padding_required', impl='impl Header<IndexSignatureTag>', subs=[ret()],
        spec='    ensures r as int == sigpad(self.index_header.data_section_size as int), 0 <= r < 8,'),
     Fn(HDR, 'parse_signature', impl='impl Header<IndexSignatureTag>',
-       subs=[READ1, ret()] + IOERR_RULES + MINMAX_RULES,
+       subs=[READ1, ret()] + IOERR_RULES + MINMAX_RULES + ALLOC_RULES,
        spec='''    ensures
         old(input).remaining().len() < 16 ==> r is Err,
         r is Ok ==> {
